@@ -3,7 +3,6 @@
 package fw
 
 import (
-	"verif/vrt"
 	"encoding/hex"
 	"fmt"
 	"hash/fnv"
@@ -12,6 +11,7 @@ import (
 	"strings"
 	"syscall"
 	"time"
+	"verif/vrt"
 )
 
 // ImplPkg is the import path prefix that identifies frames of the implementation.
@@ -35,25 +35,25 @@ func (v Violation) Key() string {
 
 // PhaseResult is what one worker measured for one phase.
 type PhaseResult struct {
-	Name        string      `json:"name"`
-	Space       string      `json:"space"`
-	Levels      []bool      `json:"levels,omitempty"` // Levels[i]: all strings of i+MinLevel symbols of this shard done
-	MinLevel    int         `json:"min_level,omitempty"`
-	AlphaSize   int         `json:"alpha_size,omitempty"`
-	Complete    bool        `json:"complete"`
-	Evals       int64       `json:"evals"`
-	States      int64       `json:"states"`
-	Transitions int64       `json:"transitions"`
-	Traces      int64       `json:"traces"`
-	Nontrivial  int64       `json:"nontrivial"`
-	Outcomes    []uint64    `json:"outcomes,omitempty"`
-	OutcomeCap  bool        `json:"outcome_cap,omitempty"`
-	NViol       int64       `json:"nviol"`
-	Violations  []Violation `json:"violations,omitempty"`
-	Samples     []any       `json:"samples,omitempty"`
+	Name        string           `json:"name"`
+	Space       string           `json:"space"`
+	Levels      []bool           `json:"levels,omitempty"` // Levels[i]: all strings of i+MinLevel symbols of this shard done
+	MinLevel    int              `json:"min_level,omitempty"`
+	AlphaSize   int              `json:"alpha_size,omitempty"`
+	Complete    bool             `json:"complete"`
+	Evals       int64            `json:"evals"`
+	States      int64            `json:"states"`
+	Transitions int64            `json:"transitions"`
+	Traces      int64            `json:"traces"`
+	Nontrivial  int64            `json:"nontrivial"`
+	Outcomes    []uint64         `json:"outcomes,omitempty"`
+	OutcomeCap  bool             `json:"outcome_cap,omitempty"`
+	NViol       int64            `json:"nviol"`
+	Violations  []Violation      `json:"violations,omitempty"`
+	Samples     []any            `json:"samples,omitempty"`
 	Extra       map[string]int64 `json:"extra,omitempty"`
-	Notes       []string    `json:"notes,omitempty"`
-	WallS       float64     `json:"wall_s"`
+	Notes       []string         `json:"notes,omitempty"`
+	WallS       float64          `json:"wall_s"`
 }
 
 // WorkerResult is the JSON a worker prints.
@@ -78,15 +78,15 @@ type W struct {
 	start    time.Time     // start of the current phase
 	deadline time.Time
 
-	cur      *PhaseResult
-	outcomes map[uint64]struct{}
-	eval     func(w *W, input, aux string)
-	curIn    string
-	curAux   string
-	journal  []byte
-	tick     int
-	expired  bool
-	Replay   bool // single-case replay mode: keep everything verbose
+	cur       *PhaseResult
+	outcomes  map[uint64]struct{}
+	eval      func(w *W, input, aux string)
+	curIn     string
+	curAux    string
+	journal   []byte
+	tick      int
+	expired   bool
+	Replay    bool // single-case replay mode: keep everything verbose
 	EngineErr string
 }
 
@@ -220,6 +220,7 @@ func (w *W) recoverCase() {
 func panicOrigin(st string) string {
 	lines := strings.Split(st, "\n")
 	seenPanic := false
+	first := ""
 	for _, l := range lines {
 		if strings.HasPrefix(l, "\t") {
 			continue
@@ -231,13 +232,24 @@ func panicOrigin(st string) string {
 		if !seenPanic {
 			continue
 		}
-		if strings.HasPrefix(l, "runtime.") {
-			continue
-		}
+		fn := l
 		if i := strings.LastIndex(l, "("); i > 0 {
-			return l[:i]
+			fn = l[:i]
 		}
-		return l
+		if first == "" && !strings.HasPrefix(fn, "runtime.") {
+			first = fn
+		}
+		// a panic raised inside the standard library is attributed to its first caller that is either
+		// the implementation or the harness
+		if strings.HasPrefix(fn, ImplPkg) || strings.HasPrefix(fn, "verif/") || strings.HasPrefix(fn, "main.") {
+			if first != fn && first != "" {
+				return fn + " (via " + first + ")"
+			}
+			return fn
+		}
+	}
+	if first != "" {
+		return first
 	}
 	return "?"
 }
